@@ -462,7 +462,8 @@ pub fn add_end_violation(rep: &sim::SimReport, violations: &mut Vec<Violation>) 
             push_panic_violations(&rep.ctx.panics, violations, "before the hang");
             let op = pending();
             let opk: String = op.split(|c: char| c == ' ' || c == '(').next().unwrap_or("").to_string();
-            let class = match rep.ctx.panics.first() {
+            // (a panic the database caught itself fails one request; a thread that died is the likelier cause)
+            let class = match rep.ctx.panics.iter().find(|p| !p.contained).or(rep.ctx.panics.first()) {
                 Some(p) => format!("hang_after_panic:{}:{}:{opk}", file_of(&p.location), stem(&p.message)),
                 None => format!("hang:{opk}:no_panic"),
             };
